@@ -569,3 +569,29 @@ func (sink) Write(p []byte) (int, error) { return len(p), nil }
 
 // QuietLog sends the standard logger's output to a sink that still makes it format.
 func QuietLog() { log.SetOutput(sink{}) }
+
+// Together runs the cases of a batch in goroutines of their own, all released at the same
+// moment, and returns the first failure (by position). Panics inside run are the callee's
+// business (the run functions recover and classify them).
+func Together[C any](cs []C, run func(C) *Failure) *Failure {
+	res := make([]*Failure, len(cs))
+	start := make(chan struct{})
+	var wg sync.WaitGroup
+	for i := range cs {
+		wg.Add(1)
+		go func(i int) {
+			defer wg.Done()
+			<-start
+			res[i] = run(cs[i])
+		}(i)
+	}
+	close(start)
+	wg.Wait()
+	for i, f := range res {
+		if f != nil {
+			f.Msg = fmt.Sprintf("(case %d of %d running at the same time) %s", i+1, len(cs), f.Msg)
+			return f
+		}
+	}
+	return nil
+}
